@@ -790,7 +790,7 @@ type c16KeptAnswer struct {
 var c16Kept []c16KeptAnswer
 
 func c16(c *fw.Ctx) {
-	c.Rule("every BitMatrix shape w in 1..130 x h in 1..8 (all 1040, exhaustive) and every BitArray size 0..200 from both constructors, each with N random operation sequences of 40 steps from the exported API (in-range arguments, word-boundary-biased positions); full state and every query compared with a [][]bool / []bool model after every step; a case is non-trivial when all 40 steps ran, distinct = distinct (shape, operation trace)")
+	c.Rule("every BitMatrix shape w in 1..130 x h in 1..8 (all 1040, exhaustive) and every BitArray size 0..200 from both constructors, each with N random operation sequences of 40 steps from the exported API (in-range arguments, word-boundary-biased positions); full state and every query compared with a [][]bool / []bool model after every step; each transforming operation also as the first call of its kind in a fresh process (9 sizes on and off the word boundary); a case is non-trivial when all 40 steps ran, distinct = distinct (shape, operation trace)")
 	c.Assume("the models in worker/c16.go are the specification of a plain bit container (Get outside the matrix is false, as the Go port documents)")
 	nseq := c.Pick(20, 1200)
 	for w := 1; w <= 130; w++ {
@@ -816,6 +816,16 @@ func c16(c *fw.Ctx) {
 		}
 	}
 	c.Exhaustive("BitArray sizes 0..200 x both constructors")
+	// every transforming operation as the first call of its kind in a fresh process
+	for _, op := range c16ColdMatrixOps {
+		op := op
+		c.Run("cold/matrix/"+op, func(r *fw.Rec) { c16Cold(r, true, op) })
+	}
+	for _, op := range c16ColdArrayOps {
+		op := op
+		c.Run("cold/array/"+op, func(r *fw.Rec) { c16Cold(r, false, op) })
+	}
+	c.Floor("cold_start_first_operations", 9*16)
 	c.Floor("matrix_sequences", int64(1040*nseq*9/10))
 	c.Floor("array_sequences", int64(402*aseq*9/10))
 	c.Floor("setrow_with_wider_row", 500)
